@@ -135,7 +135,7 @@ def report(ctx, n, m1, seed, sym, detail):
 
 
 def shards(tier, seed):
-    out = []
+    out = [{'part': 'repo-tests'}]
     nz, nj = (320, 480) if tier == 'quick' else (12000, 18000)
     kz, kj = (8, 8) if tier == 'quick' else (24, 24)
     for i in range(kz):
@@ -153,6 +153,10 @@ def shards(tier, seed):
 
 def run_shard(spec, ctx):
     import hszinc
+    if spec['part'] == 'repo-tests':
+        from vf import contracts
+        contracts.repo_tests_shard(ctx, ['dump-pure'], PROP)
+        return
     if spec['part'] == 'hashseed':
         # same documents in every process (seeded independently of the hash seed); texts are digested and
         # compared across processes by the parent
